@@ -929,7 +929,7 @@ def _slim(obs):
     return d
 
 
-HANG_TIMEOUT = 15  # seconds of CPU after which an isolated case is killed (a normal case takes 0.01-0.3 s)
+HANG_TIMEOUT = 5  # seconds of CPU after which an isolated case is killed (a normal case takes 0.01-0.3 s)
 ISOLATED_LIBRARIES = ("Nlopt",)  # C code that a Python-level alarm cannot interrupt; parallel DOEs are isolated too
 
 
@@ -1124,7 +1124,7 @@ def run(ctx):
                 for n in BUDGETS:
                     yield {"problem": pname, "table": table, "runs": [make_run(kind, algo, n, DEFAULTS)]}
 
-    pmap(check_case, phase1(), tally, jobs=ctx.jobs, chunk=10, timeout=CASE_TIMEOUT)
+    pmap(check_case, phase1(), tally, jobs=ctx.jobs, chunk=3, timeout=CASE_TIMEOUT)
     accepted = sorted(tally.sets.get("accepted", set()))
     acc = {}
     for kind, algo, pname in accepted:
@@ -1153,7 +1153,7 @@ def run(ctx):
                     for n in BUDGETS:
                         yield {"problem": pname, "table": table, "runs": [make_run(kind, algo, n, st)]}
 
-    pmap(check_case, phase2(), tally, jobs=ctx.jobs, chunk=10, timeout=CASE_TIMEOUT)
+    pmap(check_case, phase2(), tally, jobs=ctx.jobs, chunk=3, timeout=CASE_TIMEOUT)
 
     # phase 3: histories - ordered pairs of executions on the same problem, with and without counter reset
     if ctx.thorough:
@@ -1183,7 +1183,7 @@ def run(ctx):
                         st1 = dict(DEFAULTS, stop="kkt")
                         yield {"problem": pname, "table": table, "runs": [make_run(k1, a1, budgets[0][0], st1), make_run(k2, a2, budgets[0][1], DEFAULTS)]}
 
-    pmap(check_case, phase3(), tally, jobs=ctx.jobs, chunk=10, timeout=CASE_TIMEOUT)
+    pmap(check_case, phase3(), tally, jobs=ctx.jobs, chunk=4, timeout=CASE_TIMEOUT)
 
     # phase 4: histories with a pre-populated database (empty / partial / complete entries at the points the algorithm
     # visits), budgets smaller and larger than the number of pre-registered points
@@ -1206,7 +1206,7 @@ def run(ctx):
                             for ref_n, n in budgets4:
                                 yield {"problem": pname, "table": tb, "prefill": {"mode": mode, "ref_N": ref_n}, "runs": [make_run(kind, algo, n, st)]}
 
-    pmap(check_case, phase4(), tally, jobs=ctx.jobs, chunk=5, timeout=CASE_TIMEOUT)
+    pmap(check_case, phase4(), tally, jobs=ctx.jobs, chunk=3, timeout=CASE_TIMEOUT)
 
     # phase 5: parallel (and serial) DOEs on functions that take normalized inputs - normalize_design_space=True, or after
     # a normalized optimizer on the same problem - on bounds for which the normalization round trip is not bit-exact, with
